@@ -105,6 +105,13 @@ type Found struct {
 	State GKey
 }
 
+// LocalFound = a violation observed on one node's local history (no global trace).
+type LocalFound struct {
+	V    Violation
+	Node int
+	Hist []Event
+}
+
 type Engine struct {
 	mu            sync.RWMutex
 	nm, nl        int
@@ -130,6 +137,11 @@ type Engine struct {
 	StopReason                                          string
 	KnownHits                                           map[string]int
 	Found                                               []Found
+	// Unsound is set when two histories of one canonical local state were seen to react differently: the code under
+	// test keeps state the dump does not show (or the harness is nondeterministic). The merged search stops; what the
+	// two diverging executions themselves violated is kept in LocalFound (each is re-validated by table-free replay).
+	Unsound    string
+	LocalFound []LocalFound
 	seenFP                                              map[string]bool
 	Outcomes                                            map[string]int
 	Samples                                             []string
@@ -420,6 +432,14 @@ func (e *Engine) computeStep(ls int, ev Event) *LRes {
 		e.Validated++
 		e.mu.Unlock()
 		if r2.Next != r.Next || sig != sig2 {
+			e.mu.Lock()
+			for _, v := range r.Viol {
+				e.LocalFound = append(e.LocalFound, LocalFound{v, s.Node, append(append([]Event{}, s.Hist...), ev)})
+			}
+			for _, v := range r2.Viol {
+				e.LocalFound = append(e.LocalFound, LocalFound{v, s.Node, append(append([]Event{}, h2...), ev)})
+			}
+			e.mu.Unlock()
 			panic(HarnessError{fmt.Sprintf("abstraction unsound: local state %d reached by two histories reacts differently to %v:\n%s\n%s\n---\n%s\n%s\nhist1=%s\nhist2=%s\nev=%s", ls, ev, e.lstate(r.Next).Canon, sig, e.lstate(r2.Next).Canon, sig2, e.histStr(s.Hist), e.histStr(h2), e.histStr([]Event{ev}))})
 		}
 	}
@@ -755,6 +775,11 @@ outer:
 			}
 			wg.Wait()
 			if herr != nil {
+				if he, ok := herr.(HarnessError); ok && strings.HasPrefix(he.Msg, "abstraction unsound") {
+					e.Unsound = he.Msg
+					e.Exhaustive, e.StopReason = false, "abstraction unsound (hidden state in the code under test, or harness nondeterminism): merged search stopped"
+					break outer
+				}
 				panic(herr)
 			}
 			for i, g := range part {
@@ -1081,6 +1106,20 @@ func (e *Engine) histStr(h []Event) string {
 		}
 	}
 	return strings.Join(r, "\n  ")
+}
+
+// RenderLocalHist renders a violation seen on one node's local history.
+func (e *Engine) RenderLocalHist(f LocalFound) ReplayFile {
+	rf := ReplayFile{Property: f.V.Prop, Config: e.Cfg.Name, Violation: f.V, Engine: "pmc"}
+	for _, ev := range f.Hist {
+		switch ev.Kind {
+		case 'd':
+			rf.Events = append(rf.Events, e.msgEvent("deliver", f.Node, ev.Msg))
+		case 't':
+			rf.Events = append(rf.Events, TraceEvent{Kind: "timeout", Node: f.Node})
+		}
+	}
+	return rf
 }
 
 // RenderLocal renders a differential finding: the history of one local state followed by the mutant.
